@@ -154,16 +154,23 @@ class LinRecorder:
 
     def saveload(self, s, t, how=0):
         p = impl.tmpfile()
-        self.slots[s].save(p)
-        if how == 0:
-            new = impl.countmin.CountMinLinear.load(p)
-        elif how == 1:
-            new = impl.countmin.load(p)
-        else:
-            new = impl.countmin.load(p, shared_memory=True)
-        os.unlink(p)
-        if type(new) is not impl.countmin.CountMinLinear:
-            raise AssertionError("load returned %r" % type(new))
+        try:
+            self.slots[s].save(p)
+            if how == 0:
+                new = impl.countmin.CountMinLinear.load(p)
+            elif how == 1:
+                new = impl.countmin.load(p)
+            else:
+                new = impl.countmin.load(p, shared_memory=True)
+            if type(new) is not impl.countmin.CountMinLinear:
+                raise TypeError("load returned %r" % type(new))
+        except Exception as exc:
+            if impl.STRICT_PERSIST:
+                self.emit({"ev": "saveload_failed", "s": s + 1, "t": t + 1, "exc": repr(exc)[:200]})
+            return
+        finally:
+            if os.path.exists(p):
+                os.unlink(p)
         self.slots[t] = new
         self.emit({"ev": "saveload", "s": s + 1, "t": t + 1})
 
